@@ -367,7 +367,7 @@ func c18r1(c *Ctx) {
 			nw++
 			ctor := cc.Instr.(*ssa.Call)
 			o := c.Ob(fn, "event-wiring", cc.Instr, "the controller watches the dynamic cache's event source with an EnqueueWatchingObjects handler over the same cache and the template type, and completes the builder")
-			var problems []string
+			var problems, undecided []string
 			var src *ssa.Call
 			for _, k := range callsIn(fn) {
 				if k.Common.IsInvoke() && k.Common.Method.Name() == "Source" && len(k.Common.Args) >= 1 && stripConv(k.Common.Args[0]) == ssa.Value(ctor) {
@@ -378,7 +378,7 @@ func c18r1(c *Ctx) {
 				problems = append(problems, "the handler is not passed to <dynamic cache>.Source(...)")
 			} else {
 				if !p.sameValue(src.Common().Value, cc.Common.Args[0]) {
-					problems = append(problems, "the handler resolves owners from "+p.describe(cc.Common.Args[0])+" but events come from "+p.describe(src.Common().Value))
+					undecided = append(undecided, "cannot establish that the handler resolves owners from the cache whose events it receives: owners from "+p.describe(cc.Common.Args[0])+", events from "+p.describe(src.Common().Value))
 				}
 				var raw, forC, compl *ssa.Call
 				for _, k := range callsIn(fn) {
@@ -407,14 +407,10 @@ func c18r1(c *Ctx) {
 				case forC == nil || !p.pfDerives(callRecv(raw.Common()), pfIsValue(forC)):
 					problems = append(problems, "the source is not attached to the builder of the template type")
 				case !p.sameValue(callArgs(forC.Common())[0], cc.Common.Args[1]):
-					problems = append(problems, "the watcher type of the handler is not the type the controller reconciles (For)")
+					undecided = append(undecided, "cannot establish that the watcher type of the handler is the type the controller reconciles (For)")
 				}
 			}
-			if len(problems) == 0 {
-				o.OK()
-			} else {
-				o.Fail("%s", strings.Join(problems, "; "))
-			}
+			c11Conclude(o, problems, undecided, nil)
 		}
 	}
 	if nw == 0 {
